@@ -251,6 +251,8 @@ class World:
         if rng.random() < 0.15:
             pos = rng.randint(0, len(s))
             s = s[:pos] + rng.choice(NONASCII) + s[pos:]
+        if rng.random() < 0.08:
+            return str(rng.choice([0, 1, 2, 5, 7, 12, 42, 256]))      # a string that reads like an integer
         if rng.random() < 0.1:
             s = rng.choice(['org.gnome.gedit', 'a, b', 'x(y)', 'wl_surface@3', 'nil', '12', 'new id a@1',
                             'fd 3', 'array', '1.5', 'a=b', '[x]', 'B: 7c', ' lead', 'trail ', ', ', '), (']) + s[:3]
@@ -518,7 +520,7 @@ class World:
         if not ms:
             return None
         m = ms[r1 % len(ms)]
-        inc = Incarnation(c.index, 9000 + r1 % 40, 0, iface, None, self.now)
+        inc = Incarnation(c.index, 9000 + (r2 % 4) * 100 + r1 % 40, 0, iface, None, self.now)   # one id, one interface
         inc.orphan = True
         args = self._build_args(c, m, rng, m.is_event, [], [])
         if args is None:
@@ -534,6 +536,30 @@ class World:
             return self._act_done(c, r1, r2, rng)
         return self._act_sync(c, r1, r2, rng)
 
+
+    def _act_shm(self, c, r1, r2, rng):
+        """step towards, then emit, wl_shm.format events whose argument carries an enum label (argb8888 / xrgb8888)"""
+        regs = self._registries(c)
+        if not regs:
+            return self._act_get_registry(c, r1, r2, rng)
+        shm = c.live('wl_shm')
+        if not shm:
+            have = [g for g in c.globals if g[1] == 'wl_shm']
+            if not have:
+                name = c.next_global
+                c.next_global += 1
+                c.globals.append((name, 'wl_shm', 1))
+                args = [GArg('u', name, name='name'), GArg('s', 'wl_shm', name='interface'), GArg('u', 1, name='version')]
+                return self._emit(c, True, regs[0], 'global', 0, args, 'usu')
+            name, iface, ver = have[0]
+            creates, implicit = [], []
+            inc = self._new_object(c, 'wl_shm', False, implicit)
+            creates.append(inc)
+            args = [GArg('u', name, name='name'), GArg('s', 'wl_shm'), GArg('u', 1), GArg('n', inc, iface=None, typed=False, name='id')]
+            return self._emit(c, False, regs[0], 'bind', 0, args, 'usun', creates, None, implicit)
+        m = [x for x in self.proto['wl_shm'].events if x.name == 'format'][0]
+        args = [GArg('u', [0, 1, 0x34325241, 7][r1 % 4], name='format')]
+        return self._emit(c, True, shm[0], 'format', m.opcode, args, m.signature())
 
     APP_ID_VALUES = ['b', 'B', 'c', 'a', 'org.gnome.gedit', 'org.foo.', '', 'all', 'x.b', 'C']
 
@@ -551,7 +577,7 @@ class World:
 
 
 ACT_KINDS = ['get_registry', 'sync', 'done', 'delete_id', 'global', 'bind', 'request', 'event',
-             'request_new', 'event_new', 'mention', 'destroy', 'churn', 'bind_synth', 'destroy_server', 'app_id', 'orphan']
+             'request_new', 'event_new', 'mention', 'destroy', 'churn', 'bind_synth', 'destroy_server', 'app_id', 'orphan', 'shm']
 
 CHATTER_TEMPLATES = [
     '', '   ', '\t', 'hello world', 'libEGL warning: DRI2: failed to authenticate',
